@@ -54,9 +54,11 @@ Definition wd_of (W : world) (a : N) : N := default a (wd W !! a).
 Definition credit (W : world) (a d : N) (x : Z) : world := with_bank W (<[(a, d) := bal W a d + x]> (bank W)).
 Definition set_stake (W : world) (a v : N) (x : Z) : world := with_stake W (<[(a, v) := x]> (stake W)).
 
-Definition ESCROW : N := 5.
+Definition ESCROW : N := 5.                                   (* escrow account of transfer/channel-0 *)
+Definition ESCROW1 : N := 6.                                  (* escrow account of transfer/channel-1 *)
+Definition escrow_of (ch : N) : N := (ESCROW + ch)%N.         (* every channel escrows into its own account *)
 Definition blocked_addr (a : N) : bool := N.leb 6 a.          (* module accounts cannot be withdraw addresses *)
-Definition chan_exists (ch : N) : bool := N.eqb ch 0.
+Definition chan_exists (ch : N) : bool := N.eqb ch 0 || N.eqb ch 1.   (* two open transfer channels *)
 
 Record cfg := mkcfg {
   c_vals : list N;      (* the validators, in address order (all bonded, none jailed, one token per share) *)
@@ -154,7 +156,7 @@ Definition native_transfer (W : world) (a ch d : N) (amt : Z) : world * status :
   if amt <=? 0 then (W, SErr) else
   if negb (chan_exists ch) then (W, SErr) else
   if bal W a d <? amt then (W, SErr) else
-  (credit (credit W a d (- amt)) ESCROW d amt, SOk).
+  (credit (credit W a d (- amt)) (escrow_of ch) d amt, SOk).
 
 (** * the precompile methods *)
 Inductive call :=
@@ -324,7 +326,7 @@ Definition actors : list N := [0; 1; 2; 3; 4]%N.
 Record obs := mkobs {
   ob_ok : bool;
   ob_calls : list bool;
-  ob_bal : list (list Z);           (* actors 0..4 and the escrow account, two denominations *)
+  ob_bal : list (list Z);           (* actors 0..4 and the escrow accounts of the two channels, two denominations *)
   ob_deleg : list (list Z);         (* actors 0..4 x validators *)
   ob_unbond : list (list (Z * Z));
   ob_reward : list (list Z);        (* -1: the delegation's starting record is missing *)
@@ -341,7 +343,7 @@ Definition obs_grants (W : world) : list (N * N * mtype * grant) :=
 Definition observe (cf : cfg) (W : world) (ok : bool) (cs : list bool) : obs :=
   let vs := seq 0 (length (c_vals cf)) in
   mkobs ok cs
-    (map (fun a => [bal W a 0; bal W a 1]) (actors ++ [ESCROW]))
+    (map (fun a => [bal W a 0; bal W a 1]) (actors ++ [ESCROW; ESCROW1]))
     (map (fun a => map (fun v => stk W a (N.of_nat v)) vs) actors)
     (map (fun a => map (fun v => (zg (unbond0 W) (a, N.of_nat v), zg (unbond1 W) (a, N.of_nat v))) vs) actors)
     (map (fun a => map (fun v => if bool_decide ((a, N.of_nat v) ∈ broken W) && (0 <? stk W a (N.of_nat v)) then -1
